@@ -11,7 +11,8 @@ database is re-verified after every event.
 """
 from __future__ import annotations
 
-import json
+import os
+import traceback
 from dataclasses import dataclass
 
 from ipv8.attestation.identity.community import IdentityCommunity, IdentitySettings
@@ -155,7 +156,7 @@ class W:
 class Model(core.BfsModel):
     """
     cfg: hashes, names (1|2), reg_keys, reg_md (list of 0/1), req_subjects, req_extra (list of 0/1), rm_known (list),
-         adversary (bool: replay/steal/rm/att events), adv (bool: self-advertise event), time (list of seconds)
+         time (list of seconds), groups (which of ALL_GROUPS are in the alphabet), max_replay, reqatt_subjects
     """
 
     def __init__(self, name: str, cfg: dict, seed: int) -> None:
@@ -166,16 +167,20 @@ class Model(core.BfsModel):
         al += [("reg", h, n, k, md) for h in H for n in N for k in c["reg_keys"] for md in c["reg_md"]]
         al += [("time", dt) for dt in c["time"]]
         al += [("req", s, h, n, x) for s in c["req_subjects"] for h in H for n in N for x in c["req_extra"]]
-        if c.get("adv"):
+        g = set(c["groups"])
+        if "adv" in g:
             al += [("adv", "B")]
-        if c.get("adversary"):
+        if "replay" in g:
             al += [("replay", s, j, mode) for s in c["req_subjects"] for j in range(c["max_replay"])
                    for mode in ("own", "other")]
+        if "steal" in g:
             al += [("steal",)]
+        if "rm" in g:
             al += [("rm", k, known) for k in ("T", "D") for known in c["rm_known"]]
+        if "att" in g:
             al += [("att", v) for v in ("T-valid", "D-carries-T", "D-own-from-T-address", "T-altered")]
-        if c.get("third_party_att"):
-            al += [("reqatt", s) for s in c["req_subjects"]]
+        if "reqatt" in g:
+            al += [("reqatt", s) for s in c["reqatt_subjects"]]
         self.alphabet = al
 
     def params(self) -> dict:
@@ -344,7 +349,7 @@ class Model(core.BfsModel):
                 break
             if msg is not None and msg.signed and dst is not None:
                 if msg.msg_id == 1:
-                    w.consent[dst].shown(msg.payload.metadata, msg.payload.tokens)
+                    w.consent[dst].shown(msg.payload.metadata, msg.payload.tokens, msg.payload.attestations)
                 elif msg.msg_id == 4:
                     w.consent[dst].shown(b"", msg.payload.tokens)
                 elif msg.msg_id == 2:
@@ -421,7 +426,7 @@ class Model(core.BfsModel):
                 tuple(sorted({(L(h), nm, kn(k), None if md is None else tuple(sorted(md.items())),
                                min(round(now - t, 3), EXPIRED)) for h, nm, k, md, t in c.registrations}, key=repr)),
                 tuple(sorted(repr(L(h)) for h in c.tokens)), tuple(sorted(repr(L(h)) for h in c.metadata)),
-                tuple(sorted(repr(L(h)) for h in c.attested)),
+                tuple(sorted(repr(L(h)) for h in c.attested)), tuple(sorted(repr(L(h)) for h in c.third_party)),
                 tuple(L(h) for h in w.chain[n].tokens), tuple(sorted((kn(k), i) for k, i in w.chain[n].opened.items())),
                 tuple(sorted((kn(k), repr(L(a[:32])), refm.sig_ok(k, a[32:], a[:32])) for k, a in w.attest_received[n])),
             )
@@ -457,26 +462,57 @@ class Model(core.BfsModel):
 # configurations
 # ------------------------------------------------------------------------------------------------------------------
 
+ALL_GROUPS = ["adv", "replay", "steal", "rm", "att", "reqatt"]
+
+
 def _cfg(**kw) -> dict:  # noqa: ANN003
     base = {"hashes": 2, "names": 2, "reg_keys": ["B", "D"], "reg_md": [0, 1], "req_subjects": ["B", "D"],
-            "req_extra": [0, 1], "rm_known": [0, 1, 2], "adversary": True, "adv": True, "time": [299, 301],
-            "max_replay": 3, "third_party_att": False}
+            "req_extra": [0, 1], "rm_known": [0, 1, 2], "groups": list(ALL_GROUPS), "time": [299, 301],
+            "max_replay": 4, "reqatt_subjects": ["D"]}
     base.update(kw)
     return base
 
 
 def configs(ctx: core.Ctx) -> list[tuple[Model, int]]:
     s = ctx.seed
+    # who may be attested: two hashes, both subjects register and request; one name, no extra metadata
+    subjects = _cfg(names=1, reg_md=[0], req_extra=[0], groups=["replay", "steal", "reqatt"])
+    # what may be attested: one hash, subject B; both names, with and without fixed / extra metadata
+    fields = _cfg(hashes=1, reg_keys=["B"], req_subjects=["B"], groups=["replay"])
+    # token hand-out and incoming attestations: one hash/name, B requests and self-advertises, T/D ask for tokens
+    tokens = _cfg(hashes=1, names=1, reg_keys=["B"], reg_md=[0], req_subjects=["B"], req_extra=[0], time=[301],
+                  groups=["adv", "rm", "att", "replay"])
+    full = _cfg()
     if ctx.thorough:
         return [
-            (Model("full", _cfg(), s), 4),
+            (Model("full", full, s), 4),
+            (Model("subjects", subjects, s), 5),
+            (Model("fields", fields, s), 5),
+            (Model("tokens", tokens, s), 5),
         ]
     return [
-        # who may be attested: two hashes, both subjects register and request, one name, no extra metadata
-        (Model("subjects", _cfg(names=1, reg_md=[0], req_extra=[0], rm_known=[0, 1]), s), 4),
-        # what may be attested: one hash, subject B, both names, with and without fixed / extra metadata
-        (Model("fields", _cfg(hashes=1, reg_keys=["B"], req_subjects=["B"], rm_known=[0, 1]), s), 4),
+        (Model("subjects", subjects, s), 4),
+        (Model("fields", fields, s), 4),
+        (Model("tokens", tokens, s), 4),
+        (Model("full", full, s), 3),
     ]
+
+
+def _self_check(model: Model, histories: list) -> None:
+    """Replay determinism: the same history in two fresh worlds gives the same digest and observations."""
+    for h in histories:
+        seen = []
+        for _ in range(2):
+            seams.reseed(("bfs", model.seed))
+            w = model.initial()
+            try:
+                obs = [model.apply(w, tuple(ev)) for ev in h]
+                seen.append((core.digest(model.digest(w)), core.digest(obs)))
+            finally:
+                model.dispose(w)
+        if seen[0] != seen[1]:
+            core.eprint(f"C17: replaying {h} twice gave different digests/observations - machinery broken")
+            raise SystemExit(2)
 
 
 # ------------------------------------------------------------------------------------------------------------------
@@ -488,7 +524,30 @@ _MODEL: Model | None = None
 STAT_KEYS = ("attest_sent", "missing_response_nonempty", "pingpong_cut")
 
 
+def _transition(m: Model, w: W, hist: tuple, i: int) -> tuple:
+    """Apply alphabet[i] to a world that is at `hist`; digest before the stored-state oracle runs."""
+    ev = m.alphabet[i]
+    base = dict(w.counts)
+    viol: list = []
+    obs = None
+    try:
+        obs = m.apply(w, ev)
+    except Exception as e:  # noqa: BLE001
+        viol.append((f"exception:{type(e).__name__}:{ev[0]}", traceback.format_exc()[-800:]))
+    d = core.digest(m.digest(w))
+    try:
+        viol.extend(m.check(w, [m.alphabet[j] for j in hist], ev, obs))
+    except Exception as e:  # noqa: BLE001
+        viol.append((f"oracle-crash:{type(e).__name__}", traceback.format_exc()[-800:]))
+    rows = sum(len(list(w.ov[n].identity_manager.database.execute(
+        "SELECT 1 FROM Attestations", fetch_all=True) or [])) for n in NODES)
+    stats = tuple(w.counts[k] - base[k] for k in STAT_KEYS) + (w.max_deliveries, rows)
+    verdicts = tuple(sorted({o[-1] for o in (obs[1] if obs else ()) if len(o) == 5}))
+    return d, hist + (i,), viol, core.digest(obs) if obs is not None else b"", stats, verdicts
+
+
 def _expand(chunk: list) -> list:
+    """All successors of each history in the chunk; the world is rebuilt by replay for every transition."""
     m = _MODEL
     assert m is not None
     out = []
@@ -497,28 +556,9 @@ def _expand(chunk: list) -> list:
         en = list(m.enabled(w0))
         m.dispose(w0)
         for i in en:
-            ev = m.alphabet[i]
             w = m.build(hist)
-            base = dict(w.counts)
-            viol: list = []
-            obs = None
-            try:
-                obs = m.apply(w, ev)
-            except Exception as e:  # noqa: BLE001
-                import traceback
-                viol.append((f"exception:{type(e).__name__}:{ev[0]}", traceback.format_exc()[-800:]))
-            d = core.digest(m.digest(w))
-            try:
-                viol.extend(m.check(w, [m.alphabet[j] for j in hist], ev, obs))
-            except Exception as e:  # noqa: BLE001
-                import traceback
-                viol.append((f"oracle-crash:{type(e).__name__}", traceback.format_exc()[-800:]))
-            rows = sum(len(list(w.ov[n].identity_manager.database.execute(
-                "SELECT 1 FROM Attestations", fetch_all=True) or [])) for n in NODES)
-            stats = tuple(w.counts[k] - base[k] for k in STAT_KEYS) + (w.max_deliveries, rows)
-            verdicts = tuple(sorted({o[-1] for o in (obs[1] if obs else ()) if len(o) == 5}))
+            out.append(_transition(m, w, hist, i))
             m.dispose(w)
-            out.append((d, hist + (i,), viol, core.digest(obs) if obs is not None else b"", stats, verdicts))
     return out
 
 
@@ -565,13 +605,17 @@ def bfs(model: Model, depth: int, jobs: int, chunk: int = 4) -> dict:
             seen.update(level_new)
             nxt = sorted(level_new.values())
             levels.append({"depth": level, "new_states": len(nxt), "frontier_in": len(frontier)})
+            if os.environ.get("VERIF_PROGRESS"):
+                core.eprint(f"C17 {model.name} level {level}: {levels[-1]} transitions so far {transitions}")
             completed = level
             frontier = nxt
             if not frontier:
                 break
     for v in violations.values():
         v.replay = {"history": [list(model.alphabet[j]) for j in v.replay["_h"][1]]}
-    samples = [[list(model.alphabet[j]) for j in h] for h in (frontier[:1] + frontier[-1:])] or [[list(model.alphabet[0])]]
+    # samples: the deepest representative histories with the most distinct event kinds (deterministic choice)
+    varied = sorted(frontier, key=lambda h: (-len({model.alphabet[j][0] for j in h}), h))
+    samples = [[list(model.alphabet[j]) for j in h] for h in varied[:2]] or [[list(model.alphabet[0])]]
     return {"states": len(seen), "transitions": transitions, "completed_depth": completed, "levels": levels,
             "distinct_outcomes": len(outcomes), "samples": samples,
             "violations": sorted(violations.values(), key=lambda v: (len(v.replay["history"]), v.key)),
@@ -600,6 +644,7 @@ def run(ctx: core.Ctx) -> core.Report:
                      "transitions_per_event_kind": r["transitions_per_event_kind"],
                      "transitions_with_judged_send_by_verdict": r["transitions_with_verdict"]})
         samples.extend(r["samples"])
+        _self_check(model, r["samples"])
         for v in r["violations"]:
             if v.key in seen_keys:
                 continue
